@@ -191,6 +191,10 @@ class SymWorld(World):
         """do not ask the solver whether each if-then-else condition is already decided by the path (many clip/min atoms)"""
         core.PRUNE_ITE[0] = False
 
+    def generic_nonzero(self):
+        """count_nonzero treats values that are not identically zero as non-zero, adding that as an explicit assumption"""
+        arrays.GENERIC_NONZERO[0] = True
+
     def float_constants(self):
         """sqrt of concrete numbers stays a float (as in numpy) instead of an exact algebraic atom: for harnesses whose
         obligations carry a tolerance anyway"""
@@ -377,13 +381,15 @@ class SymWorld(World):
         elif isinstance(a, (SCx,) + core.PYCX) or isinstance(b, (SCx,) + core.PYCX):
             ar, ai = core.lower_cx(SCx.of(a))
             d = SCx.of(a) - SCx.of(b)
+            if core.ABSQ and d.t:
+                d = SCx({k: (core.reduce_abs(x), core.reduce_abs(y)) for k, (x, y) in d.t.items()}).clean()
             if not d.t:
                 core.STATS.queries += 1
                 self._record(nm, 'unsat-normal-form')
                 return
             if core.INV:
                 keys = list(d.t)
-                cl = core.clear_inverses([x for k in keys for x in d.t[k]])
+                cl = [core.reduce_abs(x) for x in core.clear_inverses([x for k in keys for x in d.t[k]])]
                 d2 = SCx({k: (cl[2 * i], cl[2 * i + 1]) for i, k in enumerate(keys)}).clean()
                 if not d2.t:
                     core.STATS.queries += 1
@@ -408,7 +414,7 @@ class SymWorld(World):
                 ok = (a == b) if not isinstance(a, rnp.ndarray) else False
                 self._record(nm, 'unsat-concrete' if ok else 'concrete-fail', None if ok else {'got': repr(a), 'want': repr(b)})
                 return
-            d = an.p - bn.p
+            d = core.reduce_abs(an.p - bn.p)
             if d.is_zero():
                 core.STATS.queries += 1
                 self._record(nm, 'unsat-normal-form')
@@ -416,7 +422,7 @@ class SymWorld(World):
             if d.is_const():
                 self._record(nm, 'concrete-fail', {'got': repr(a), 'want': repr(b)})
                 return
-            if core.INV and core.clear_inverses([d])[0].is_zero():
+            if core.INV and core.reduce_abs(core.clear_inverses([d])[0]).is_zero():
                 core.STATS.queries += 1
                 self._record(nm, 'unsat-normal-form')
                 return
@@ -466,7 +472,7 @@ class SymWorld(World):
         from . import stubs
         g = stubs.Generator(seed)
         g.calls = call
-        return g._arr('poisson', getattr(lam, 'shape', ()), 'I', {'nonneg': True}, lambda z: [z >= 0])
+        return g._arr('poisson', getattr(lam, 'shape', ()), 'I', {'nonneg': True}, lambda z: [z >= 0], param=lam)
 
     def rng_events(self):
         return [e for e in core.ctx().events if e and e[0] == 'rng']
@@ -596,6 +602,7 @@ class ConcWorld(World):
         core.PRUNE_ITE[0] = False
 
     def float_constants(self): pass
+    def generic_nonzero(self): pass
     def no_ite_pruning(self): pass
     def pi(self): return math.pi
 
